@@ -116,6 +116,7 @@ type Res struct {
 	Missing bool             `json:"missing,omitempty"`
 	Val     *D               `json:"val,omitempty"`
 	Static  string           `json:"static,omitempty"`
+	SPkg    string           `json:"spkg,omitempty"`
 	Events  []DE             `json:"events,omitempty"`
 	Counts  map[string]int64 `json:"counts,omitempty"`
 	API     *API             `json:"api,omitempty"`
